@@ -37,6 +37,7 @@ Definition pins : list string := ["usim/_primitives/context.py:CancelScope.__ini
   "usim/_primitives/concurrent_exception.py:<module>";
   "usim/_primitives/concurrent_exception.py:Concurrent.<attrs>";
   "usim/_primitives/concurrent_exception.py:Concurrent.__repr__";
+  "usim/_primitives/concurrent_exception.py:Concurrent.flattened";
   "usim/_primitives/concurrent_exception.py:MetaConcurrent.<attrs>";
   "usim/_primitives/concurrent_exception.py:MetaConcurrent.__getitem__";
   "usim/_primitives/concurrent_exception.py:MetaConcurrent.__instancecheck__";
